@@ -19,12 +19,13 @@ type World struct {
 	boxes      map[string]string // sort -> declared box/unbox
 	strLits    map[string]string // literal -> const name
 	strOrder   []string
+	fullBytes  map[string]bool // literals whose bytes are all spelled out (replay values)
 	extraDecls []string
 	useStrings bool // String theory instead of uninterpreted Str
 }
 
 func NewWorld() *World {
-	return &World{structs: map[string]*types.Struct{}, structName: map[string]string{}, typeIDs: map[string]int{}, boxes: map[string]string{}, strLits: map[string]string{}}
+	return &World{structs: map[string]*types.Struct{}, structName: map[string]string{}, typeIDs: map[string]int{}, boxes: map[string]string{}, strLits: map[string]string{}, fullBytes: map[string]bool{}}
 }
 
 func shortPath(p string) string {
@@ -288,12 +289,16 @@ func (w *World) ensureBox(s string) {
 func (w *World) Prelude(body string) string {
 	var b strings.Builder
 	usesStrlen := strings.Contains(body, "(strlen ")
+	usesByte := strings.Contains(body, "(|str.byte| ")
 	if w.useStrings {
 		b.WriteString("(define-sort Str () String)\n")
 		b.WriteString("(define-fun strlen ((s Str)) Int (str.len s))\n")
 	} else {
 		b.WriteString("(declare-sort Str 0)\n")
 		b.WriteString("(declare-fun strlen (Str) Int)\n")
+		if usesByte {
+			b.WriteString("(declare-fun |str.byte| (Str Int) Int)\n")
+		}
 		if usesStrlen {
 			b.WriteString("(assert (forall ((s Str)) (! (>= (strlen s) 0) :pattern ((strlen s)))))\n")
 		}
@@ -332,6 +337,11 @@ func (w *World) Prelude(body string) string {
 				fmt.Fprintf(&b, "(declare-const %s Str)\n", c)
 				if usesStrlen {
 					fmt.Fprintf(&b, "(assert (= (strlen %s) %d))\n", c, len(s))
+				}
+				if usesByte && (len(s) <= 4 || w.fullBytes[s]) {
+					for i := 0; i < len(s); i++ {
+						fmt.Fprintf(&b, "(assert (= (|str.byte| %s %d) %d))\n", c, i, s[i])
+					}
 				}
 				names = append(names, c)
 			}
